@@ -476,7 +476,7 @@ func c09Data() []core.SeriesSpec {
 }
 
 var c09Positions = []string{
-	`%s + %s`, `%s * on (l) %s`, `%s / ignoring (m) %s`, `%s > bool %s`, `%s + on (l) group_left %s`,
+	`%s + on () %s`, `%s + %s`, `%s * on (l) %s`, `%s / ignoring (m) %s`, `%s > bool %s`, `%s + on (l) group_left %s`,
 	`abs(%s) + %s`, `rate(%s[1m]) + %s`, `sum(%s) + sum(%s)`, `sum by (l) (%s) / sum by (l) (%s)`, `%s + scalar(%s)`, `clamp_max(%s, scalar(%s))`,
 	`%s - rate(%s[1m])`, `count(%s or vector(0)) + count(%s)`,
 }
